@@ -13,6 +13,7 @@ import (
 	"strconv"
 	"strings"
 	"sync"
+	"sync/atomic"
 	"testing/synctest"
 	"time"
 )
@@ -43,6 +44,12 @@ type vfSched struct {
 	probePts map[string]bool // point names at which probe goroutines park
 	off      bool
 	events   []vfEvent
+
+	// spin barrier: actors reaching spinPoint do not park on a channel but spin until spinGo is set, so that they
+	// all leave within nanoseconds of each other (for races whose window has no hook inside)
+	spinPoint   string
+	spinArrived atomic.Int32
+	spinGo      atomic.Bool
 }
 
 func newVFSched(w *vfWorld, points []string, probePoints []string) *vfSched {
@@ -95,6 +102,14 @@ func (s *vfSched) point(name string, args ...any) {
 		return
 	}
 	s.logLocked(actor, "point", name)
+	if name == s.spinPoint && !s.off {
+		s.mu.Unlock()
+		s.spinArrived.Add(1)
+		for !s.spinGo.Load() {
+			// busy wait on purpose (never more actors than half the cores)
+		}
+		return
+	}
 	if s.off || !(s.points[name] && !isProbe || s.probePts[name] && isProbe) {
 		s.mu.Unlock()
 		return
